@@ -168,3 +168,45 @@ def const_list(t):
         else:
             return None
     return out
+
+
+def norm_cond(cond):
+    """path condition with leading negations folded into the polarity"""
+    out = []
+    for t, p in cond:
+        while t[0] == 'un' and t[1] == 'not':
+            t, p = t[2], not p
+        out.append((t, p))
+    return out
+
+
+def path_has(cond, pred, pol=True):
+    return any(pred(t) and p == pol for t, p in norm_cond(cond))
+
+
+def lt_form(t):
+    """('<' or '<=' or '==', a, b) for a comparison in any orientation"""
+    if t[0] != 'cmp':
+        return None
+    op, a, b = t[1], t[2], t[3]
+    if op in ('>', '>='):
+        return ({'>': '<', '>=': '<='}[op], b, a)
+    if op in ('==', '!='):
+        return (op,) + tuple(sorted((a, b), key=lambda x: x._n if hasattr(x, '_n') else 0))
+    return (op, a, b)
+
+
+def is_sum(t, a, b):
+    return t[0] == 'bin' and t[1] == '+' and ((t[2] == a and t[3] == b) or
+                                            (t[2] == b and t[3] == a))
+
+
+def as_difference(t):
+    """(minuend, subtrahend) of `a - b` or `a + (-b)`, else None"""
+    if t[0] == 'bin' and t[1] == '-':
+        return t[2], t[3]
+    if t[0] == 'bin' and t[1] == '+':
+        for x, y in ((t[2], t[3]), (t[3], t[2])):
+            if y[0] == 'un' and y[1] == '-':
+                return x, y[2]
+    return None
